@@ -66,3 +66,17 @@ Definition run_validate_timing (inp : list N) : list N :=
   | h :: e :: c :: l :: _ => [b2n (validate_timing h e c l)]
   | _ => []
   end.
+
+(* component 1303: same input as component 13, for contacts so old that lease - maxDiff falls below
+   minCheckInterval: stepdown, maxDiff in buckets of a tenth of the lease (rounded), and the next
+   interval in whole multiples of minCheckInterval, capped at 2 (floor division: at the floor it is exactly 1
+   whatever the latency between the harness's and the implementation's clock readings, without the floor it
+   is 0; 2 = well above the floor, where the exact multiple would depend on that latency) *)
+Definition run_lease_floor (inp : list N) : list N :=
+  let '(cfg, r) := dec_config inp in
+  match r with
+  | self :: lease :: now :: nc :: r' =>
+    let '(sd, md) := check_lease cfg self (dec_pairs (N.to_nat nc) r') lease now in
+    [b2n sd; (md + lease / 20) / (lease / 10); N.min 2 (next_interval lease md / min_check_interval)]
+  | _ => []
+  end.
